@@ -53,12 +53,19 @@ Vector3 RotMatToVec(const Matrix3& m) {
 
 		return v * static_cast<float>(std::asin(sin2ang * 0.5) / sin2ang);
 	}
-	if (cosang > -1) {
-		Vector3 v(m[1][2] - m[2][1], m[2][0] - m[0][2], m[0][1] - m[1][0]);
-		v.Normalize();
-		return v * static_cast<float>(std::acos(cosang));
+	// Antisymmetric part: 2 * sin(angle) * axis
+	Vector3 asym(m[1][2] - m[2][1], m[2][0] - m[0][2], m[0][1] - m[1][0]);
+	double sin2ang = asym.length();
+	if (cosang > -1 && sin2ang > 1e-3) {
+		asym.Normalize();
+		return asym * static_cast<float>(std::acos(cosang));
 	}
-	// cosang <= -1, sinang == 0
+
+	// (Nearly) a half turn: the antisymmetric part vanishes, so take the axis from the
+	// symmetric part instead. The squared components are on the diagonal...
+	if (cosang < -1)
+		cosang = -1;
+
 	double x = (m[0][0] - cosang) * 0.5;
 	double y = (m[1][1] - cosang) * 0.5;
 	double z = (m[2][2] - cosang) * 0.5;
@@ -76,13 +83,17 @@ Vector3 RotMatToVec(const Matrix3& m) {
 			  static_cast<float>(std::sqrt(z)));
 	v.Normalize();
 
-	if (m[1][2] < m[2][1])
-		v.x = -v.x;
-	if (m[2][0] < m[0][2])
-		v.y = -v.y;
-	if (m[0][1] < m[1][0])
-		v.z = -v.z;
-	return v * PI;
+	// ...the signs relative to the largest component in the off-diagonal sums...
+	int k = (v.x >= v.y && v.x >= v.z) ? 0 : (v.y >= v.z ? 1 : 2);
+	for (int i = 0; i < 3; i++)
+		if (i != k && m[k][i] + m[i][k] < 0)
+			v[i] = -v[i];
+
+	// ...and the overall direction in what is left of the antisymmetric part.
+	if (asym.dot(v) < 0)
+		v = Vector3(-v.x, -v.y, -v.z);
+
+	return v * static_cast<float>(std::atan2(sin2ang * 0.5, cosang));
 }
 
 Matrix3 CalcAverageRotation(const std::vector<Matrix3>& rots) {
@@ -107,6 +118,10 @@ Matrix3 CalcAverageRotation(const std::vector<Matrix3>& rots) {
 	Vector3 sum2;
 	for (const Matrix3& r : rots)
 		sum2 += RotMatToVec(baseinv * r);
+
+	sum2.x /= n;
+	sum2.y /= n;
+	sum2.z /= n;
 
 	// The result is the new average offset from the base.
 	return base * RotVecToMat(sum2);
@@ -232,6 +247,31 @@ BoundingSphere::BoundingSphere(const std::vector<Vector3>& vertices) {
 	center.z = pCenter[2];
 
 	radius = std::sqrt(mb.squared_radius());
+
+	// The pivot iteration of the miniball can stop early with float coordinates. Make sure
+	// that the sphere contains every vertex and is not larger than the sphere around the
+	// bounding box (results that already are within float tolerance stay untouched).
+	Vector3 boxMin = vertices.front();
+	Vector3 boxMax = vertices.front();
+	float maxDist = 0.0f;
+	for (auto& vertice : vertices) {
+		maxDist = std::max(maxDist, center.DistanceTo(vertice));
+		boxMin = Vector3(std::min(boxMin.x, vertice.x), std::min(boxMin.y, vertice.y), std::min(boxMin.z, vertice.z));
+		boxMax = Vector3(std::max(boxMax.x, vertice.x), std::max(boxMax.y, vertice.y), std::max(boxMax.z, vertice.z));
+	}
+
+	if (maxDist > radius * 1.00001f)
+		radius = maxDist;
+
+	Vector3 boxCenter = (boxMin + boxMax) * 0.5f;
+	float boxRadius = 0.0f;
+	for (auto& vertice : vertices)
+		boxRadius = std::max(boxRadius, boxCenter.DistanceTo(vertice));
+
+	if (radius > boxRadius * 1.00001f) {
+		center = boxCenter;
+		radius = boxRadius;
+	}
 }
 
 float Matrix3::Determinant() const {
